@@ -42,7 +42,7 @@ ASSUMPTIONS = [
 SHARDS = {"quick": 16, "thorough": 16}
 TIMEOUT = {"quick": 900, "thorough": 7200}
 MIN_CASES = {"quick": 3000, "thorough": 40000}
-REQUIRED_COUNTERS = ["pairing_roundtrips", "database_roundtrips", "fixtures_roundtripped", "unparsable_caches_tolerated", "crash_points_injected", "crash_points_survived", "file_ops_enumerated", "database_update_histories", "saves_after_crash_checked", "failing_operations_injected"]
+REQUIRED_COUNTERS = ["pairing_roundtrips", "database_roundtrips", "fixtures_roundtripped", "unparsable_caches_tolerated", "crash_points_injected", "crash_points_survived", "file_ops_enumerated", "database_update_histories", "saves_after_crash_checked", "failing_operations_injected", "empty_database_roundtrips"]
 
 
 def tmpdir():
@@ -725,6 +725,13 @@ async def _async_parts(ctx) -> None:
         if ctx.mine(idx):
             rng = ctx.grng("C20.B", idx)
             database_roundtrip(ctx, gen_entity_map(rng), f"random:{idx}", rng, rng.choice(["IP", "BLE", "CoAP"]))
+    # a cache entry whose accessory list is EMPTY still carries configuration / state numbers and the broadcast key (the BLE
+    # placeholder state written before the database has been fetched)
+    for k in range(12):
+        if ctx.mine(k):
+            rng = ctx.grng("C20.B.empty", k)
+            database_roundtrip(ctx, [], f"empty-database:{k}", rng, ["BLE", "IP", "CoAP"][k % 3])
+            ctx.count("empty_database_roundtrips")
     corruption_part(ctx)
     crash_part(ctx)
 
